@@ -10,8 +10,8 @@ class Artifacts:
     Parameters:
       minlen (int) : the minimal length of the components to keep.
     """
-    for cc in filter(lambda c: sum([self.segment(sn).length for sn in c]) \
-                     < minlen, self.connected_components()):
+    for cc in filter(lambda c: sum([self.segment(sn).try_get_length() \
+                     for sn in c]) < minlen, self.connected_components()):
       for s in cc:
         self.rm(s)
 
@@ -31,7 +31,7 @@ class Artifacts:
     """
     for s in self.segments:
       c = s._connectivity()
-      if s.length < minlen and \
+      if s.try_get_length() < minlen and \
         (c[0]==0 or c[1]==0) and \
           not self.is_cut_segment(s):
         self.rm(s)
